@@ -40,6 +40,11 @@ def step (s : S) : List String → S × String
       match setNonce ttlMs n (s.st snd).1 with
       | .ok W' => (⟨upd s.st snd (W', (s.st snd).2 ++ [n]), s.reqs⟩, "ok " ++ showWin W')
       | .error e => (s, "err " ++ errName e)
+  -- a stored record in the old single-integer format counts as that one accepted nonce
+  | ["legacy", snd, n] =>
+    match n.toNat? with
+    | none => (s, "bad-op")
+    | some n => (⟨upd s.st snd ([n], [n]), s.reqs⟩, "ok")
   | ["sign", snd, n, _body] =>
     match n.toNat? with
     | none => (s, "bad-op")
@@ -79,6 +84,10 @@ def jstep (j : J) (ws : List String) : J × String :=
     | some n =>
       let r := jone j.acc snd n (o = "ok")
       (⟨r.1, j.reqs⟩, r.2.getD "pass")
+  | ["legacy", snd, n, "=>", _] =>
+    match n.toNat? with
+    | none => (j, "bad-op")
+    | some n => (⟨upd j.acc snd [n], j.reqs⟩, "pass")
   | ["sign", snd, n, _, "=>", _] =>
     match n.toNat? with
     | none => (j, "bad-op")
